@@ -405,8 +405,8 @@ class C11(common.Prop):
             args["hand"] = rng.choice(["LEFT", "RIGHT", "left", "Right"])
         if op in ("hide_remove", "reduce") and rng.random() < 0.4:
             be = rng.choice(["torch", "tf"])
-        if op == "hide" and rng.random() < 0.1:
-            be = rng.choice(["torch", "tf"])
+        if op in ("hide", "wrist", "wrists") and rng.random() < 0.1:
+            be = rng.choice(["torch", "tf"])          # item assignment / deepcopy are NumPy-body operations: these raise
         return {"be": be, "pose": pd, "args": args, "kind": "%s/%s" % (fmt, kind)}
 
     def enum_cases(self, rng, max_pts):
@@ -651,7 +651,8 @@ class C11(common.Prop):
                 return None                   # item assignment is a NumPy-body operation
             empty = expected is not None and sum(len(p) for _, p in expected) == 0
             return fail("%s raised %s on a request it should serve%s" % (op, out[1], " (empty selection)" if empty else ""),
-                        kind="raises-tf-empty-selection" if (empty and case["be"] == "tf") else "raises", exc=out[1:])
+                        kind="raises-tf-empty-selection" if (empty and case["be"] == "tf" and out[1] == "InvalidArgumentError") else "raises",
+                        exc=out[1:])
         _, after, result, same = out
         # ---- the source pose
         if op == "hide":
